@@ -101,7 +101,15 @@ def lake_build(targets, timeout=3000):
     """Build the given module/exe targets. Returns (ok, log, broken) where broken lists
     (file, line, message) of each error."""
     t0 = time.time()
-    rc, out = sh(['lake', 'build'] + list(targets), cwd=LEAN, timeout=timeout)
+    # checks may be started side by side: one build of the shared workspace at a time
+    import fcntl
+    os.makedirs(WORK, exist_ok=True)
+    with open(os.path.join(WORK, 'build.lock'), 'w') as lk:
+        fcntl.flock(lk, fcntl.LOCK_EX)
+        try:
+            rc, out = sh(['lake', 'build'] + list(targets), cwd=LEAN, timeout=timeout)
+        finally:
+            fcntl.flock(lk, fcntl.LOCK_UN)
     broken = []
     for m in re.finditer(r'^error: (\S+?\.lean):(\d+):(\d+): (.*)$', out, re.M):
         broken.append((m.group(1), int(m.group(2)), m.group(4)[:300]))
